@@ -195,6 +195,12 @@ type caseResult struct {
 // casesOf evaluates fn once per named constant of the tag's type (plus the
 // pseudo-case "<other>" standing for any value that is none of them).
 func casesOf(fn *ssa.Function, tag ssa.Value, consts map[string]constant.Value, extra map[ssa.Value]constant.Value, hook feHook) []caseResult {
+	return casesOfInline(fn, tag, consts, extra, hook, nil)
+}
+
+// casesOfInline is casesOf with an inlining policy for the walker (helpers and
+// functions taken from constant function tables are followed).
+func casesOfInline(fn *ssa.Function, tag ssa.Value, consts map[string]constant.Value, extra map[ssa.Value]constant.Value, hook feHook, inline func(*ssa.Function, int) bool) []caseResult {
 	names := make([]string, 0, len(consts))
 	for n := range consts {
 		names = append(names, n)
@@ -217,7 +223,7 @@ func casesOf(fn *ssa.Function, tag ssa.Value, consts map[string]constant.Value, 
 				assume[t] = v
 			}
 		}
-		w := &feWalker{Fn: fn, Assume: assume, Hook: hook}
+		w := &feWalker{Fn: fn, Assume: assume, Hook: hook, Inline: inline}
 		ends := w.Run()
 		out = append(out, caseResult{Const: name, Val: val, Ends: ends, W: w})
 	}
